@@ -312,6 +312,8 @@ func parseBlock(nativeBlock *hclsyntax.Block, from, leadComments, lineComments, 
     }
 
     before, labelsNode, from := parseBlockLabels(nativeBlock, from)
+    // comments between the block type and its first label
+    children.AppendUnstructuredTokens(before.Tokens())
     block.labels = labelsNode
     children.AppendNode(labelsNode)
 
